@@ -35,7 +35,8 @@ def split(args: Sequence[str]) -> tuple[Sequence[str], Sequence[str]]:
             i = min(i + 1, len(args) - 1)
             break
         elif a.startswith("-"):
-            in_flag = True
+            # the flag's value is the next arg, unless it's attached eg: --db_path=foo or -dfoo
+            in_flag = "=" not in a and (a.startswith("--") or len(a) == 2)
         elif not in_flag:
             break
         else:
